@@ -456,7 +456,7 @@ def run(ctx):
 
 
 def search(ctx, hints):
-    return common.generic_search(ctx, hints, oracle, gen=lambda r: ga.gen_text(r)[0])
+    return common.generic_search(ctx, hints, common.new_only('C10', oracle, classify), gen=lambda r: ga.gen_text(r)[0])
 
 
 def shrink(fl):
